@@ -10,6 +10,25 @@ class Arr(list):
         r = list.__getitem__(self, k)
         return Arr(r) if isinstance(k, slice) else r
 
+    # element-wise arithmetic / conversion as numpy arrays offer it (so that "vectorised" rewrites of the code under test still run
+    # on the shim; values are Python / symbolic integers, there is no width)
+    def astype(self, dtype=None):
+        return Arr(self)
+
+    def __sub__(self, other):
+        if isinstance(other, (list, Arr)):
+            if len(other) != len(self):
+                raise ValueError('operands could not be broadcast together')
+            return Arr(a - b for a, b in zip(self, other))
+        return Arr(a - other for a in self)
+
+    def __add__(self, other):
+        if isinstance(other, (list, Arr)):
+            if len(other) != len(self):
+                raise ValueError('operands could not be broadcast together')
+            return Arr(a + b for a, b in zip(self, other))
+        return Arr(a + other for a in self)
+
 
 int64 = 'int64'
 uint64 = 'uint64'
